@@ -1,8 +1,8 @@
 """Runs one workload of parse / combine calls in THIS fresh process and prints one JSON object
 {index: result text | 'E:ExcName'} plus the final state of the recursion guard.
 usage: c20_worker.py <workload.json> <mode: seq|perm|threads> <seed> [nthreads]"""
-import json, sys, random, threading
-sys.path.insert(0, "/repo/src")
+import json, sys, random, threading, os
+sys.path.insert(0, os.environ.get("VERIF_REPO", "/repo") + "/src")
 def one(call):
     from poetry.core.constraints.version import parse_constraint, Version
     from poetry.core.version.markers import parse_marker, cnf, dnf
